@@ -79,6 +79,8 @@ pub struct Knobs {
     /// Rewards profile: tiny liquidity + huge emissions + year-long clock jumps, so that reward
     /// growth accumulators reach the top bits / wrap by legitimate accrual
     pub extreme_rewards: bool,
+    /// only the v2 instructions (needed for Token-2022 mints)
+    pub v2_only: bool,
 }
 
 #[derive(Clone, Debug, Default)]
@@ -100,6 +102,7 @@ pub enum Role {
     Collector,
     Router,
     RewardAuth,
+    MintAuth,
 }
 
 #[derive(Clone, Debug)]
@@ -211,6 +214,11 @@ pub fn full_range_only(spacing: u16) -> bool {
 }
 
 thread_local! {
+    /// set per run from the knobs: only v2 instructions are generated (Token-2022 worlds)
+    pub static V2_ONLY: std::cell::Cell<bool> = const { std::cell::Cell::new(false) };
+}
+
+thread_local! {
     /// twin runs (C13): force the tick-array encoding without disturbing the PRNG stream
     pub static FORCE_ARRAY_KIND: std::cell::Cell<Option<u8>> = const { std::cell::Cell::new(None) };
 }
@@ -251,6 +259,7 @@ pub fn make_knobs(profile: Profile, rng: &mut Rng, thorough: bool) -> Knobs {
         spacing_choices: vec![1, 8, 64, 128, 32768],
         adaptive_pct: 0,
         extreme_rewards: false,
+        v2_only: false,
     };
     if let Some(kd) = FORCE_ARRAY_KIND.with(|c| c.get()) {
         k.array_kind = kd;
@@ -267,6 +276,8 @@ pub fn make_knobs(profile: Profile, rng: &mut Rng, thorough: bool) -> Knobs {
             k.clock_back_pct = pct(rng, 4, 1, 6);
         }
         Profile::T22 => {
+            k.v2_only = true;
+            k.spacing_choices = vec![1, 8, 64, 128];
             k.slots_per_epoch = *rng.pick(&[8u64, 20, 50, 432_000]);
             k.clock_jump_pct = pct(rng, 4, 2, 8);
         }
@@ -320,6 +331,7 @@ impl Gen {
         rt::install_stubs();
         let mut rng = Rng::new(seed ^ 0x5157_5053_494d_0001);
         let knobs = make_knobs(profile, &mut rng, thorough);
+        V2_ONLY.with(|c| c.set(knobs.v2_only));
         let rent = if knobs.non_default_rent {
             RentParams {
                 lamports_per_byte_year: *rng.pick(&[1000u64, 3480, 5000]),
@@ -368,13 +380,24 @@ impl Gen {
         let mut mint_keys: Vec<Pubkey> = (0..n_mints).map(|_| new_key(&mut rng)).collect();
         mint_keys.sort();
         let mut mints = Vec::new();
-        for mk in &mint_keys {
-            world::create_mint(&mut l, &payer, mk, &payer, 6, None);
-            mints.push(MintInfo {
-                key: *mk,
-                program: ix::tok(),
-                authority: payer,
-            });
+        let mint_authority = new_key(&mut rng);
+        world::fund(&mut l, &mint_authority, 1u64 << 40);
+        for (mi, mk) in mint_keys.iter().enumerate() {
+            if knobs.profile == Profile::T22 && (mi == 0 || rng.chance(2, 3)) {
+                let fee = if mi == 0 || rng.chance(3, 4) {
+                    Some((
+                        *rng.pick(&[0u16, 1, 30, 100, 500, 5000, 9999, 10000]),
+                        *rng.pick(&[0u64, 10, 1_000_000, 1_000_000_000_000, u64::MAX]),
+                    ))
+                } else {
+                    None
+                };
+                world::create_mint_2022(&mut l, &payer, mk, &mint_authority, 6, fee, None);
+                mints.push(MintInfo { key: *mk, program: ix::tok22(), authority: mint_authority });
+            } else {
+                world::create_mint(&mut l, &payer, mk, &mint_authority, 6, None);
+                mints.push(MintInfo { key: *mk, program: ix::tok(), authority: mint_authority });
+            }
         }
         // pools
         let mut pools = Vec::new();
@@ -408,8 +431,8 @@ impl Gen {
                 mint_b: mb,
                 vault_a: new_key(&mut rng),
                 vault_b: new_key(&mut rng),
-                prog_a: ix::tok(),
-                prog_b: ix::tok(),
+                prog_a: mints.iter().find(|m| m.key == ma).map(|m| m.program).unwrap_or(ix::tok()),
+                prog_b: mints.iter().find(|m| m.key == mb).map(|m| m.program).unwrap_or(ix::tok()),
                 tick_spacing: spacing,
                 fee_tier_index: spacing,
                 oracle: ix::pda_oracle(&whirlpool),
@@ -477,8 +500,8 @@ impl Gen {
                             token_vault_a: keys.vault_a,
                             token_vault_b: keys.vault_b,
                             adaptive_fee_tier: tier,
-                            token_program_a: ix::tok(),
-                            token_program_b: ix::tok(),
+                            token_program_a: keys.prog_a,
+                            token_program_b: keys.prog_b,
                             system_program: ix::sys(),
                             rent: ix::rent_sysvar(),
                         },
@@ -492,7 +515,7 @@ impl Gen {
                 pools.push(PoolInfo { keys, adaptive: true });
                 continue;
             }
-            let use_v2 = rng.chance(1, 2);
+            let use_v2 = rng.chance(1, 2) || knobs.v2_only;
             let ixn = if use_v2 {
                 ix::initialize_pool_v2(&keys, &payer, price)
             } else {
@@ -532,7 +555,7 @@ impl Gen {
             let mut tokens = BTreeMap::new();
             for m in &mints {
                 let ta = new_key(&mut rng);
-                world::create_token_account(&mut l, &payer, &ta, &m.key, &wallet);
+                world::create_token_account_any(&mut l, &payer, &ta, &m.key, &wallet);
                 world::mint_to(&mut l, &m.program, &m.key, &ta, &m.authority, 1u64 << 58);
                 tokens.insert(m.key, ta);
             }
@@ -557,13 +580,16 @@ impl Gen {
         if knobs.profile == Profile::Rewards {
             special.push((Role::RewardAuth, reward_super));
         }
+        if knobs.profile == Profile::T22 {
+            special.push((Role::MintAuth, mint_authority));
+        }
         for (role, wallet) in special {
             let id = actors.len();
             let mut tokens = BTreeMap::new();
             if role == Role::Collector {
                 for m in &mints {
                     let ta = new_key(&mut rng);
-                    world::create_token_account(&mut l, &payer, &ta, &m.key, &wallet);
+                    world::create_token_account_any(&mut l, &payer, &ta, &m.key, &wallet);
                     tokens.insert(m.key, ta);
                 }
             }
@@ -631,6 +657,7 @@ impl Gen {
             let at = match g.w.actors[i].role {
                 Role::Lp => g.rng.below(800),
                 Role::RewardAuth => g.rng.below(400),
+                Role::MintAuth => g.rng.below(4000),
                 _ => 1500 + g.rng.below(4000),
             };
             g.push(at, Ev::Wake(i));
@@ -817,6 +844,7 @@ impl Gen {
             Role::Collector => plan_collector(&self.w, &mut actor, ledger),
             Role::Router => crate::gen2::plan_router(&self.w, &self.knobs, &mut actor, ledger),
             Role::RewardAuth => crate::gen2::plan_reward_auth(&self.w, &self.knobs, &mut actor, ledger),
+            Role::MintAuth => crate::gen2::plan_mint_auth(&self.w, &self.knobs, &mut actor, ledger),
         };
         self.w.actors[id].rng = actor.rng;
         if !flow.is_empty() {
@@ -830,6 +858,7 @@ impl Gen {
             Role::FeeAuth => 10_000 + self.rng.below(60_000),
             Role::Collector => 10_000 + self.rng.below(60_000),
             Role::RewardAuth => 1_000 + self.rng.below(12_000),
+            Role::MintAuth => 2_000 + self.rng.below(15_000),
         };
         self.push(self.now_ms + next, Ev::Wake(id));
     }
@@ -1227,7 +1256,7 @@ pub fn increase_ix(rng: &mut Rng, la: &LiqAccounts, pool: &decode::Pool, lo: i32
         }
         _ => (rng.log_u64(62), rng.log_u64(62)),
     };
-    match rng.below(4) {
+    match if V2_ONLY.with(|c| c.get()) { 1 + rng.below(3) } else { rng.below(4) } {
         0 => ix::increase_liquidity(la, liq, max_a, max_b),
         1 | 2 => ix::increase_liquidity_v2(la, liq, max_a, max_b),
         _ => {
@@ -1260,7 +1289,7 @@ pub fn decrease_ix(rng: &mut Rng, la: &LiqAccounts, pool: &decode::Pool, lo: i32
             )
         }
     };
-    if rng.chance(1, 2) {
+    if rng.chance(1, 2) && !V2_ONLY.with(|c| c.get()) {
         ix::decrease_liquidity(la, liq, min_a, min_b)
     } else {
         ix::decrease_liquidity_v2(la, liq, min_a, min_b)
@@ -1268,7 +1297,7 @@ pub fn decrease_ix(rng: &mut Rng, la: &LiqAccounts, pool: &decode::Pool, lo: i32
 }
 
 pub fn collect_ix(rng: &mut Rng, la: &LiqAccounts) -> Ix {
-    if rng.chance(1, 2) {
+    if rng.chance(1, 2) && !V2_ONLY.with(|c| c.get()) {
         ix::collect_fees(la)
     } else {
         ix::collect_fees_v2(la)
@@ -1378,7 +1407,7 @@ fn plan_trader(w: &World, knobs: &Knobs, actor: &mut Actor, l: &Ledger) -> Vec<(
         if pool.liquidity == 0 && rng.chance(2, 3) {
             continue;
         }
-        let v2 = rng.chance(1, 2);
+        let v2 = rng.chance(1, 2) || knobs.v2_only;
         // like a real client: simulate on the current view, adapt a few times, then send
         let mut chosen: Option<(SwapAccounts, SwapArgs)> = None;
         for attempt in 0..4 {
@@ -1516,7 +1545,7 @@ fn plan_collector(w: &World, actor: &mut Actor, _l: &Ledger) -> Vec<(Tx, String)
     let pi = &w.pools[rng.idx(w.pools.len())];
     let da = actor.tokens[&pi.keys.mint_a];
     let db = actor.tokens[&pi.keys.mint_b];
-    let ixn = if rng.chance(1, 2) {
+    let ixn = if rng.chance(1, 2) && !V2_ONLY.with(|c| c.get()) {
         ix::collect_protocol_fees(&pi.keys, &actor.wallet, &da, &db)
     } else {
         ix::collect_protocol_fees_v2(&pi.keys, &actor.wallet, &da, &db)
